@@ -21,12 +21,14 @@
 package main
 
 import (
+	"bytes"
 	"encoding/hex"
 	"fmt"
 	"io/ioutil"
 	"math/big"
 	"os"
 	"runtime/debug"
+	"runtime/pprof"
 	"sort"
 	"strings"
 	"sync"
@@ -38,40 +40,99 @@ import (
 )
 
 type kase struct {
-	Kind      string   `json:"kind"`                // grid | raw
-	Tx        *txSpec  `json:"tx,omitempty"`        // grid: the transaction
-	Placement string   `json:"placement"`           // consecutive | twice | between | alone | batch
-	Raw       []string `json:"raw_hex,omitempty"`   // raw: the transactions of the block (hex)
-	Where     string   `json:"where,omitempty"`     // which tx of which block the finding is about
-	TxHex     string   `json:"tx_hex,omitempty"`    // grid: the encoded transaction, for information
-	Source    string   `json:"raw_source,omitempty"`
+	Kind      string   `json:"kind"`                 // grid | raw | chain
+	Tx        *txSpec  `json:"tx,omitempty"`         // grid: the transaction
+	Placement string   `json:"placement"`            // consecutive (alone, then again in the next block) | twice | between | alone | batch
+	Raw       []string `json:"raw_hex,omitempty"`    // raw: the raw transactions of the block (hex)
+	Source    string   `json:"raw_source,omitempty"` // raw: where the bytes come from
+	Where     string   `json:"where,omitempty"`      // which tx of which block of the case the finding is about
+	Chain     []kase   `json:"chain,omitempty"`      // chain: the cases executed one after the other on one application instance
+	ID        int      `json:"id"`                   // selects the case's senders (any value works for a case alone)
 }
 
-func neighbourA() []byte { return evmkit.Call(bob, 0, storeAddr, evmkit.StorePut(0xA1)) }
-func neighbourB() []byte { return evmkit.KVPut(bob, 1, []byte("kB"), []byte("vB")) }
-func batchTail() []byte  { return evmkit.KVPut(bob, 0, []byte("kB"), []byte("tail")) }
+func (k kase) describe() string {
+	switch {
+	case k.Kind == "chain":
+		return fmt.Sprintf("chain of %d cases on one application instance", len(k.Chain))
+	case k.Tx != nil:
+		return fmt.Sprintf("grid tx {%s} placed %s", k.Tx.String(), k.Placement)
+	case len(k.Raw) == 1:
+		return fmt.Sprintf("raw tx %q (%s) placed %s", k.Raw[0], k.Source, k.Placement)
+	}
+	return fmt.Sprintf("%d raw txs (%s) in one block", len(k.Raw), k.Source)
+}
 
-func sequence(placement string, txs [][]byte) [][][]byte {
+// item = one case: a few consecutive blocks built around one grid tx (or one
+// block of raw txs), with senders of its own, so that items can be executed one
+// after the other on the same application instance.
+type item struct {
+	id     int
+	k      kase
+	blocks [][][]byte
+	evals  int
+	spin   bool
+	risky  bool // scheduling hint only: expected to panic, run on its own
+	cls    string
+}
+
+var placements = []string{"consecutive", "twice", "between"}
+
+// gridItem builds the case for grid tx s in the given placement; id selects the senders.
+func gridItem(id int, s txSpec, placement string) *item {
+	t := buildTx(s, gridSender(id))
+	sp := s
+	it := &item{id: id, k: kase{Kind: "grid", Tx: &sp, Placement: placement}, evals: 1, spin: s.spinning()}
 	switch placement {
 	case "alone":
-		return [][][]byte{{txs[0]}}
+		it.blocks = [][][]byte{{t}}
 	case "consecutive":
-		return [][][]byte{{txs[0]}, {txs[0]}}
+		it.blocks, it.evals = [][][]byte{{t}, {t}}, 2
 	case "twice":
-		return [][][]byte{{txs[0], txs[0]}}
+		it.blocks = [][][]byte{{t, t}}
 	case "between":
-		return [][][]byte{{neighbourA(), txs[0], neighbourB()}}
-	case "batch":
-		return [][][]byte{append(append([][]byte{}, txs...), batchTail())}
+		nb := neighbour(id)
+		it.blocks = [][][]byte{{evmkit.Call(nb, 0, storeAddr, evmkit.StorePut(uint64(id)+1)), t, evmkit.KVPut(nb, 1, []byte("kB"), []byte(fmt.Sprint("vB", id)))}}
+	default:
+		core.Fatal("unknown placement %q", placement)
 	}
-	core.Fatal("unknown placement %q", placement)
-	return nil
+	p := payloadBytes(s.P)
+	it.risky = s.R == "fe" && s.N == 0 && s.S == "valid" && (len(p) < 52 || s.P == "z52") && (s.G == "std" || s.G == "max") && s.Pr != "max" && s.V != "bal+1"
+	return it
+}
+
+// rawItem: the raw txs in one block, closed by one valid tx of a sender of its own.
+func rawItem(id int, source string, txs [][]byte) *item {
+	it := &item{id: id, k: kase{Kind: "raw", Placement: "batch", Source: source}, evals: len(txs)}
+	if len(txs) == 1 {
+		it.k.Placement = "alone"
+		it.blocks = [][][]byte{{txs[0]}}
+		it.risky = len(txs[0]) == 0
+	} else {
+		blk := append(append([][]byte{}, txs...), evmkit.KVPut(tailSender(id), 0, []byte("kB"), []byte(fmt.Sprint("tail", id))))
+		it.blocks = [][][]byte{blk}
+	}
+	for _, t := range txs {
+		it.k.Raw = append(it.k.Raw, hex.EncodeToString(t))
+	}
+	return it
+}
+
+func (it *item) rawTxs() [][]byte {
+	var out [][]byte
+	for _, h := range it.k.Raw {
+		b, _ := hex.DecodeString(h)
+		out = append(out, b)
+	}
+	return out
 }
 
 type hit struct {
 	order  int
+	alone  bool // observed with the case alone on a fresh base state
 	sig    map[string]string
-	kase   kase
+	item   *item
+	chain  []*item
+	where  string
 	detail string
 }
 
@@ -83,126 +144,171 @@ type driver struct {
 	inputs  *core.Counter
 	samples *core.Sampler
 	evals   int64
+	rawID   int64
+	done    int64
 }
 
-func (d *driver) record(order int, k kase, fs []finding) {
-	d.mu.Lock()
-	defer d.mu.Unlock()
-	for _, f := range fs {
-		kk := k
-		if f.txIdx[0] >= 0 {
-			kk.Where = fmt.Sprintf("block %d tx %d", f.txIdx[0]+1, f.txIdx[1])
-		}
-		d.hits = append(d.hits, hit{order: order, sig: f.sig, kase: kk, detail: k.describe() + ": " + f.detail})
+// runChain executes the items one after the other on one fresh application
+// instance and judges the whole block sequence.  A panic ends the instance: the
+// items before and after the panicking one are re-run on new instances.
+func (d *driver) runChain(items []*item) {
+	if len(items) == 0 {
+		return
 	}
-}
-
-func (k kase) describe() string {
-	if k.Tx != nil {
-		return fmt.Sprintf("grid tx {%s} placed %s", k.Tx.String(), k.Placement)
-	}
-	if len(k.Raw) == 1 {
-		return fmt.Sprintf("raw tx %q (%s) placed %s", k.Raw[0], k.Source, k.Placement)
-	}
-	return fmt.Sprintf("%d raw txs (%s) in one block", len(k.Raw), k.Source)
-}
-
-// checkGrid evaluates one grid transaction in all placements.
-func (d *driver) checkGrid(order int, s txSpec, only string) {
-	raw := buildTx(s)
-	cls := d.e.info(raw).class
-	var outs []string
-	for _, pl := range []string{"consecutive", "twice", "between"} {
-		if only != "" && only != pl {
-			continue
-		}
-		fs, out, _ := d.e.check(sequence(pl, [][]byte{raw}))
-		sp := s
-		d.record(order*4, kase{Kind: "grid", Tx: &sp, Placement: pl, TxHex: hex.EncodeToString(raw)}, fs)
-		outs = append(outs, pl+"="+out)
-		if pl == "consecutive" {
-			atomic.AddInt64(&d.evals, 2) // alone (first block) and in a later block
-		} else {
-			atomic.AddInt64(&d.evals, 1)
+	var blocks [][][]byte
+	var owner []int
+	first := make([]int, len(items))
+	for i, it := range items {
+		first[i] = len(blocks)
+		for _, b := range it.blocks {
+			blocks = append(blocks, b)
+			owner = append(owner, i)
 		}
 	}
-	d.classes.Add(cls + " :: " + strings.Join(outs, " ;; "))
-	d.inputs.Add(cls)
-}
-
-// checkBatch evaluates raw transactions together in one block (followed by one
-// valid tx); a panic is bisected down to the single transactions that cause
-// it, so that the rest of the batch is still checked.
-func (d *driver) checkBatch(order int, source string, txs [][]byte) {
-	pl := "batch"
-	if len(txs) == 1 {
-		pl = "alone"
-	}
-	fs, out, rec := d.e.check(sequence(pl, txs))
-	if rec.Panic && len(txs) > 1 {
-		if rec.PanicPhase == "decode" {
-			d.checkBatch(order, source, [][]byte{txs[rec.PanicTx]})
-			rest := append(append([][]byte{}, txs[:rec.PanicTx]...), txs[rec.PanicTx+1:]...)
-			d.checkBatch(order, source, rest)
+	fs, outcome, rec := d.e.check(blocks)
+	atomic.AddInt64(&d.done, 1)
+	if rec.Panic {
+		j := owner[rec.PanicAt]
+		it := items[j]
+		if len(items) > 1 {
+			d.runChain(items[:j])
+			d.runChain([]*item{it})
+			d.runChain(items[j+1:])
 			return
 		}
-		h := len(txs) / 2
-		d.checkBatch(order, source, txs[:h])
-		d.checkBatch(order, source, txs[h:])
-		return
-	}
-	mk := func(list [][]byte, pl string) kase {
-		k := kase{Kind: "raw", Placement: pl, Source: source}
-		for _, t := range list {
-			k.Raw = append(k.Raw, hex.EncodeToString(t))
-		}
-		return k
-	}
-	if len(txs) == 1 {
-		atomic.AddInt64(&d.evals, 1)
-		d.classes.Add("raw " + d.e.info(txs[0]).class + " :: " + out)
-		d.inputs.Add(d.e.info(txs[0]).class)
-		d.record(order, mk(txs, "alone"), fs)
-		return
-	}
-	atomic.AddInt64(&d.evals, int64(len(txs)))
-	// histogram per tx of the batch
-	if !rec.Panic {
-		inv := map[string]string{}
-		for i, t := range rec.Blocks[0].Invalid {
-			inv[string(t)] = errClass(rec.Blocks[0].Errs[i])
-		}
-		for _, t := range txs {
-			c := d.e.info(t).class
-			d.inputs.Add(c)
-			if e, ok := inv[string(t)]; ok {
-				d.classes.Add("raw " + c + " :: I(" + e + ")")
+		if it.k.Kind == "raw" && len(it.k.Raw) > 1 {
+			// bisect the block so that the other strings are still judged
+			txs := it.rawTxs()
+			var parts [][][]byte
+			if rec.PanicPhase == "decode" {
+				parts = [][][]byte{{txs[rec.PanicTx]}, append(append([][]byte{}, txs[:rec.PanicTx]...), txs[rec.PanicTx+1:]...)}
 			} else {
-				d.classes.Add("raw " + c + " :: V")
+				parts = [][][]byte{txs[:len(txs)/2], txs[len(txs)/2:]}
 			}
-		}
-	}
-	// shrink findings to a single transaction alone in a block where that reproduces them
-	for _, f := range fs {
-		var cand [][]byte
-		if f.txIdx[1] >= 0 && f.txIdx[1] < len(txs) && f.sig["kind"] != "invalid-tx-changed-state" {
-			cand = [][]byte{txs[f.txIdx[1]]}
-		} else {
-			cand = txs
-		}
-		reproduced := false
-		for _, t := range cand {
-			fs1, _, _ := d.e.check(sequence("alone", [][]byte{t}))
-			for _, f1 := range fs1 {
-				if f1.sig["kind"] == f.sig["kind"] {
-					d.record(order, mk([][]byte{t}, "alone"), []finding{f1})
-					reproduced = true
+			for _, p := range parts {
+				if len(p) > 0 {
+					d.runChain([]*item{rawItem(int(atomic.AddInt64(&d.rawID, 1)), it.k.Source, p)})
 				}
 			}
+			return
 		}
-		if !reproduced {
-			d.record(order, mk(txs, "batch"), []finding{f})
+	}
+	// histogram, per item
+	for i, it := range items {
+		last := len(blocks)
+		if i+1 < len(items) {
+			last = first[i+1]
 		}
+		if it.k.Kind == "grid" {
+			d.classes.Add(it.cls + " " + it.k.Placement + " :: " + strings.Join(outcome[first[i]:last], " | "))
+			d.inputs.Add(it.cls)
+		} else if !rec.Panic {
+			inv := map[string]string{}
+			br := rec.Blocks[first[i]]
+			for n, t := range br.Invalid {
+				inv[string(t)] = errClass(br.Errs[n])
+			}
+			for _, t := range it.rawTxs() {
+				c := d.e.info(t).class
+				d.inputs.Add(c)
+				if e, ok := inv[string(t)]; ok {
+					d.classes.Add("raw " + c + " :: I(" + e + ")")
+				} else {
+					d.classes.Add("raw " + c + " :: V")
+				}
+			}
+		} else {
+			d.classes.Add("raw " + d.e.info(it.rawTxs()[0]).class + " :: " + outcome[first[i]])
+			d.inputs.Add(d.e.info(it.rawTxs()[0]).class)
+		}
+		atomic.AddInt64(&d.evals, int64(it.evals))
+	}
+	d.mu.Lock()
+	for _, f := range fs {
+		j := owner[f.block]
+		h := hit{order: items[j].id, alone: len(items) == 1, sig: f.sig, item: items[j], where: fmt.Sprintf("block %d of the case, tx %d", f.block-first[j]+1, f.tx), detail: f.detail}
+		if len(items) > 1 {
+			h.chain = items
+		}
+		d.hits = append(d.hits, h)
+	}
+	d.mu.Unlock()
+}
+
+// flush reports the collected findings in a deterministic order.  For every
+// signature the smallest case is first confirmed ALONE on a fresh base state
+// (so that the replay artefact is minimal); if no case of that signature
+// reproduces alone, the whole chain is the case.
+func (d *driver) flush(run *core.Run) {
+	less := func(a, b hit) bool {
+		if a.alone != b.alone {
+			return a.alone
+		}
+		if la, lb := len(a.item.k.Raw), len(b.item.k.Raw); la != lb {
+			return la < lb
+		}
+		return a.order < b.order
+	}
+	d.mu.Lock()
+	hits := d.hits
+	d.hits = nil
+	d.mu.Unlock()
+	sort.SliceStable(hits, func(i, j int) bool { return less(hits[i], hits[j]) })
+	key := func(sig map[string]string) string {
+		var ks []string
+		for k, v := range sig {
+			ks = append(ks, k+"="+v)
+		}
+		sort.Strings(ks)
+		return strings.Join(ks, ";")
+	}
+	confirmed := map[string]bool{}
+	tried := map[string]int{}
+	for _, h := range hits {
+		k := key(h.sig)
+		if h.alone {
+			confirmed[k] = true
+		}
+	}
+	// confirmation runs (sequential, few)
+	for _, h := range hits {
+		k := key(h.sig)
+		if confirmed[k] || h.alone || tried[k] >= 3 {
+			continue
+		}
+		tried[k]++
+		before := len(d.hits)
+		d.runChain([]*item{h.item})
+		d.mu.Lock()
+		for _, nh := range d.hits[before:] {
+			if key(nh.sig) == k {
+				confirmed[k] = true
+			}
+		}
+		d.mu.Unlock()
+	}
+	d.mu.Lock()
+	hits = append(hits, d.hits...)
+	d.hits = nil
+	d.mu.Unlock()
+	sort.SliceStable(hits, func(i, j int) bool { return less(hits[i], hits[j]) })
+	for _, h := range hits {
+		k := h.item.k
+		k.Where = h.where
+		detail := k.describe() + ": " + h.detail
+		if !h.alone {
+			if confirmed[key(h.sig)] {
+				detail = k.describe() + " (observed inside a chain of " + fmt.Sprint(len(h.chain)) + " cases): " + h.detail
+			} else {
+				ck := kase{Kind: "chain", Where: "case " + fmt.Sprint(h.item.id) + ", " + h.where}
+				for _, it := range h.chain {
+					ck.Chain = append(ck.Chain, it.k)
+				}
+				detail = ck.describe() + ", not reproduced by the case alone; " + k.describe() + ": " + h.detail
+				k = ck
+			}
+		}
+		run.Report(h.sig, k, detail)
 	}
 }
 
@@ -227,9 +333,9 @@ type mutBase struct {
 
 func mutationBases() []mutBase {
 	return []mutBase{
-		{"transfer(alice,nonce 1,eoa,1 wei)", evmkit.Transfer(alice, 1, eoa.Addr, big.NewInt(1))},
-		{"kvput(bob,nonce 0)", evmkit.KVPut(bob, 0, []byte("gk"), []byte("mv"))},
-		{"call(carol,nonce 0,store.set)", evmkit.Call(carol, 0, storeAddr, evmkit.StoreSet(0x55))},
+		{"transfer(funded sender,nonce 1,eoa,1 wei)", evmkit.Transfer(mutSender, 1, eoa.Addr, big.NewInt(1))},
+		{"kvput(unfunded sender,nonce 0)", evmkit.KVPut(bob, 0, []byte("gk"), []byte("mv"))},
+		{"call(unfunded sender,nonce 0,store.set)", evmkit.Call(carol, 0, storeAddr, evmkit.StoreSet(0x55))},
 	}
 }
 
@@ -271,31 +377,57 @@ func vmHWM() int {
 	return 0
 }
 
+func (d *driver) itemOf(k kase, id int) *item {
+	switch k.Kind {
+	case "grid":
+		it := gridItem(id, *k.Tx, k.Placement)
+		it.cls = d.e.info(buildTx(*k.Tx, gridSender(id))).class
+		return it
+	case "raw":
+		var txs [][]byte
+		for _, h := range k.Raw {
+			b, err := hex.DecodeString(h)
+			if err != nil {
+				core.Fatal("bad hex in case: %v", err)
+			}
+			txs = append(txs, b)
+		}
+		return rawItem(id, k.Source, txs)
+	}
+	core.Fatal("unknown case kind %q", k.Kind)
+	return nil
+}
+
 func main() {
 	run := core.Start("C09", "exploration", "XSTATE")
+	if pf := os.Getenv("C09_CPUPROFILE"); pf != "" {
+		f, _ := os.Create(pf)
+		pprof.StartCPUProfile(f)
+		go func() { time.Sleep(100 * time.Second); pprof.StopCPUProfile(); f.Close() }()
+	}
+	debug.SetGCPercent(50)
 	debug.SetMemoryLimit(3 << 30)
 	evmkit.Silence()
 	evmkit.SetAdminCallback(adminCallback)
 	work := run.WorkDir()
 	os.RemoveAll(work)
 	os.MkdirAll(work, 0755)
-	tpl, base := buildTemplate(work)
-	e := &engine{run: run, tpl: tpl, work: work, base: base, baseMemo: map[string]string{}, memo: map[string]*memoEntry{}, infos: map[string]*txInfo{}}
-	d := &driver{e: e, classes: core.NewCounter(), inputs: core.NewCounter(), samples: core.NewSampler(8, run.Seed)}
+	e := &engine{run: run, work: work, baseMemo: map[string]string{}, infos: map[string]*txInfo{}}
+	d := &driver{e: e, classes: core.NewCounter(), inputs: core.NewCounter(), samples: core.NewSampler(8, run.Seed), rawID: 1 << 20}
 
 	// watchdog: a hang of the code under test is reported as an internal error, never as a verdict
 	go func() {
 		last, idle := int64(-1), 0
 		for {
 			time.Sleep(10 * time.Second)
-			p := atomic.LoadInt64(&e.progress) + atomic.LoadInt64(&e.runs)
+			p := atomic.LoadInt64(&e.blocks)
 			if p == last {
 				idle++
 			} else {
 				idle, last = 0, p
 			}
 			if idle >= 30 {
-				core.Fatal("no sequence finished for 300 s (hang in the code under test or overloaded machine)")
+				core.Fatal("no block finished for 300 s (hang in the code under test or overloaded machine)")
 			}
 		}
 	}()
@@ -305,65 +437,55 @@ func main() {
 		if err := run.ReplayCase(&k); err != nil {
 			core.Fatal("cannot load replay: %v", err)
 		}
-		switch k.Kind {
-		case "grid":
-			d.checkGrid(0, *k.Tx, k.Placement)
-		case "raw":
-			var txs [][]byte
-			for _, h := range k.Raw {
-				b, err := hex.DecodeString(h)
-				if err != nil {
-					core.Fatal("bad hex in replay: %v", err)
+		var items []*item
+		n := 1
+		if k.Kind == "chain" {
+			for _, ck := range k.Chain {
+				if ck.ID+1 > n {
+					n = ck.ID + 1
 				}
-				txs = append(txs, b)
 			}
-			d.checkBatch(0, k.Source, txs)
-		default:
-			core.Fatal("unknown case kind %q", k.Kind)
+			e.tpl, e.base = buildTemplate(work, n)
+			for _, ck := range k.Chain {
+				items = append(items, d.itemOf(ck, ck.ID))
+			}
+		} else {
+			e.tpl, e.base = buildTemplate(work, 1)
+			items = []*item{d.itemOf(k, 0)}
 		}
+		d.runChain(items)
 		d.flush(run)
-		base.Close()
+		e.base.Close()
 		run.Finish(nil, nil)
 	}
 
-	// determinism self-check (DESIGN §1.2): the same sequence twice, on two clones, must give identical records
-	probe := sequence("between", [][]byte{buildTx(def())})
-	r1, r2 := e.exec(probe, nil), e.exec(probe, nil)
-	if r1.Panic || r2.Panic || fmt.Sprint(r1.Blocks[0].Obs) != fmt.Sprint(r2.Blocks[0].Obs) || hex.EncodeToString(r1.Blocks[0].ReceiptsHash) != hex.EncodeToString(r2.Blocks[0].ReceiptsHash) || hex.EncodeToString(r1.Blocks[0].AppHash) != hex.EncodeToString(r2.Blocks[0].AppHash) {
-		core.Fatal("the harness is not deterministic: two clones of the base state disagree on the same block")
-	}
-
+	// ---- enumerate
 	specs := grid(run.Quick())
-	// long-running (interpreter budget) cases first, so that they do not form the tail
-	sort.SliceStable(specs, func(i, j int) bool { return specs[i].spinning() && !specs[j].spinning() })
-	spinning := 0
+	var items []*item
 	for _, s := range specs {
-		if s.spinning() {
-			spinning++
+		for _, pl := range placements {
+			items = append(items, &item{id: len(items), k: kase{Kind: "grid", Placement: pl}, spin: s.spinning()})
+			sp := s
+			items[len(items)-1].k.Tx = &sp
 		}
 	}
-	core.Par(len(specs), func(i int) {
-		d.checkGrid(i, specs[i], "")
-		if i%131 == 0 {
-			sp := specs[i]
-			d.samples.Add(kase{Kind: "grid", Tx: &sp, Placement: "consecutive+twice+between"})
-		}
+	nGridItems := len(items)
+	e.tpl, e.base = buildTemplate(work, nGridItems)
+	core.Par(nGridItems, func(i int) {
+		it := gridItem(i, *items[i].k.Tx, items[i].k.Placement)
+		it.cls = e.info(it.blocks[0][len(it.blocks[0])/2]).class
+		it.k.ID = i
+		items[i] = it
 	})
-	gridEvals := atomic.LoadInt64(&d.evals)
-
-	// raw byte strings as block transactions
-	type batch struct {
-		src string
-		txs [][]byte
-	}
-	var batches []batch
 	short := rawShort()
-	for i := 0; i < len(short); i += 1024 {
+	src := "all byte strings of length <= 2"
+	items = append(items, rawItem(len(items), src, [][]byte{short[0]})) // the empty string on its own
+	for i := 1; i < len(short); i += 1024 {
 		j := i + 1024
 		if j > len(short) {
 			j = len(short)
 		}
-		batches = append(batches, batch{"all byte strings of length <= 2", short[i:j]})
+		items = append(items, rawItem(len(items), src, short[i:j]))
 	}
 	nMut := 0
 	for _, mb := range mutationBases() {
@@ -374,81 +496,94 @@ func main() {
 			if j > len(ms) {
 				j = len(ms)
 			}
-			batches = append(batches, batch{"mutation of " + mb.name, ms[i:j]})
+			items = append(items, rawItem(len(items), "mutation of "+mb.name, ms[i:j]))
 		}
 	}
-	core.Par(len(batches), func(i int) {
-		d.checkBatch(len(specs)*4+i, batches[i].src, batches[i].txs)
-	})
-	d.samples.Add(kase{Kind: "raw", Placement: "batch", Source: "all byte strings of length <= 2", Raw: []string{"", "00", "c0", "ffff"}})
-	base.Close()
+	for i, it := range items {
+		it.k.ID = it.id
+		if i%397 == 0 {
+			d.samples.Add(it.k)
+		}
+	}
+
+	// determinism self-check (DESIGN §1.2): the same sequence on two clones must give identical records
+	probe := append(append([][][]byte{}, items[0].blocks...), items[2].blocks...)
+	r1, r2 := e.exec(probe, probe, nil), e.exec(probe, probe, nil)
+	if r1.Panic || r2.Panic || len(r1.Blocks) != len(r2.Blocks) {
+		core.Fatal("determinism probe failed to run")
+	}
+	for i := range r1.Blocks {
+		if fmt.Sprint(r1.Blocks[i].Obs) != fmt.Sprint(r2.Blocks[i].Obs) || !bytes.Equal(r1.Blocks[i].ReceiptsHash, r2.Blocks[i].ReceiptsHash) || !bytes.Equal(r1.Blocks[i].AppHash, r2.Blocks[i].AppHash) {
+			core.Fatal("the harness is not deterministic: two clones of the base state disagree on the same blocks")
+		}
+	}
+
+	// ---- schedule: items expected to panic run alone; the others are dealt round-robin into
+	// chains (long-running ones first, so that every chain gets its share)
+	chainLen := 64
+	var solo, rest []*item
+	for _, it := range items {
+		if it.risky {
+			solo = append(solo, it)
+		} else {
+			rest = append(rest, it)
+		}
+	}
+	sort.SliceStable(rest, func(i, j int) bool { return rest[i].spin && !rest[j].spin })
+	nChains := (len(rest) + chainLen - 1) / chainLen
+	chains := make([][]*item, nChains)
+	for i, it := range rest {
+		chains[i%nChains] = append(chains[i%nChains], it)
+	}
+	for _, c := range chains {
+		sort.SliceStable(c, func(i, j int) bool { return c[i].id < c[j].id })
+	}
+	for _, it := range solo {
+		chains = append(chains, []*item{it})
+	}
+	spinning := 0
+	for _, it := range items {
+		if it.spin {
+			spinning++
+		}
+	}
+	core.Par(len(chains), func(i int) { d.runChain(chains[i]) })
 	d.flush(run)
+	e.base.Close()
 
 	run.Finish(core.Coverage{
-		"evaluations":         int(atomic.LoadInt64(&d.evals)),
-		"grid_transactions":   len(specs),
-		"grid_evaluations":    int(gridEvals),
-		"grid_spinning_txs":   spinning,
-		"raw_short_strings":   len(short),
-		"raw_mutants":         nMut,
-		"raw_batches":         len(batches),
-		"sequences_executed":  int(atomic.LoadInt64(&e.runs)),
-		"blocks_executed":     int(atomic.LoadInt64(&e.blocks)),
-		"txs_executed":        int(atomic.LoadInt64(&e.txs)),
-		"distinct_nontrivial": d.classes.Len(),
-		"input_classes":       d.inputs.Map(),
-		"outcome_classes":     d.classes.Map(),
-		"peak_rss_mb":         vmHWM(),
-		"exhaustive":          true,
-		"samples":             d.samples.List(),
-		"rule": "base state: harness genesis (DefaultGenesis + alice funded 1e24 wei, eoa 1000 wei) + one block deploying the Store and Loop fixtures and two KV puts; grid sender alice (nonce 1). " +
+		"evaluations":                    int(atomic.LoadInt64(&d.evals)),
+		"grid_transactions":              len(specs),
+		"grid_cases":                     nGridItems,
+		"grid_cases_spinning":            spinning,
+		"raw_short_strings":              len(short),
+		"raw_mutants":                    nMut,
+		"chains_planned":                 len(chains),
+		"sequences_executed":             int(atomic.LoadInt64(&e.runs)),
+		"blocks_executed":                int(atomic.LoadInt64(&e.blocks)),
+		"txs_executed":                   int(atomic.LoadInt64(&e.txs)),
+		"receipts_hash_positional_skips": int(atomic.LoadInt64(&e.positionalSkips)),
+		"distinct_nontrivial":            d.classes.Len(),
+		"input_classes":                  d.inputs.Map(),
+		"outcome_classes":                d.classes.Map(),
+		"peak_rss_mb":                    vmHWM(),
+		"exhaustive":                     true,
+		"samples":                        d.samples.List(),
+		"rule": "base state: harness genesis (DefaultGenesis + one sender per case funded 1e24 wei with nonce 1, an EOA with 1000 wei) + one block deploying the Store and Loop fixtures and a KV put. " +
 			"Dimensions: recipient R = {contract creation, precompiles 0x01..0x08, AdminOP precompile 0xfe, admin contract 0x02000000, funded EOA, non-existent address, Store contract, Loop contract, self} (16); " +
 			"payload P = {empty, 1 byte, 31/32/33/51/52 pattern bytes, 52 zero bytes, KV marker only, KV marker + bad RLP, valid KV, KV with 257-byte key, KV with 4097-byte value, Store.set call, Store.fail (reverting) call, spin code 5b600056, admin-op calldata accepted by the callback, admin-op calldata refused} (18); " +
-			"nonce N = {cur-1, cur, cur+1}; gas limit G = {0, 1, 10^7, 2^64-1}; gas price Pr = {0, 1, 2^256-1}; value V = {0, balance, balance+1}; signature S = {valid, v flipped (valid signature of another address), v=29, r=0, high-s twin, EIP-155 chain 1, EIP-155 chain 9}. " +
-			"Thorough enumerates, with all other dimensions at the default (EOA, empty, cur, 10^7, 0, 0, valid): A = R x P x N (Loop recipient restricted to P in {empty, set, kv, b52}); B = R x G x Pr x V; C = S x N x {empty, kv, set} x {create, 0xfe, Store, EOA, self}; D = {Store, 0xfe, create} x P x G x Pr; E = {Store, 0xfe, create, EOA} x P x V; F = S x R and S x P(to Store); G' = {Store, EOA, create, 0xfe} x N x G x Pr x V; duplicates removed; of the combinations that make the interpreter spin to its 10^8-gas budget (~0.6 s each) only a fixed subset is kept (grid_spinning_txs). " +
+			"nonce N = {cur-1, cur, cur+1}; gas limit G = {0, 1, 10^7, 2^64-1}; gas price Pr = {0, 1, 2^256-1}; value V = {0, balance, balance+1}; signature S = {valid, v flipped (a valid signature of another address), v=29, r=0, high-s twin, EIP-155 chain 1, EIP-155 chain 9}. " +
+			"Thorough enumerates, all other dimensions at the default (EOA, empty, cur, 10^7, 0, 0, valid): A = R x P x N (Loop recipient restricted to P in {empty, set, kv, b52}); B = R x G x Pr x V; C = S x N x {empty, kv, set} x {create, 0xfe, Store, EOA, self}; D = {Store, 0xfe, create} x P x G x Pr; E = {Store, 0xfe, create, EOA} x P x V; F = S x R and S x P(to Store); G' = {Store, EOA, create, 0xfe} x N x G x Pr x V; duplicates removed; of the combinations that make the interpreter spin to its 10^8-gas budget (~0.6 s each) only a fixed subset is kept. " +
 			"Quick enumerates A with N != cur only for P in {empty, kv, set}; B without G=0, Pr=max, V=balance; C for P in {kv, set} and R in {0xfe, Store, self}; F = S x R. " +
-			"Every grid tx is placed (i) alone in a block, (ii) twice in one block, (iii) in two consecutive blocks ((i) is the first block of (iii)), (iv) between a valid contract call and a valid KV put of another sender; each placement runs on a fresh copy of the base state. " +
-			"Raw block txs: all 65793 byte strings of length <= 2 (blocks of 1024 strings + one valid tx), and for three valid encoded txs (transfer, KV put, contract call with log) every single-byte replacement by {00,01,7f,80,ff} and every proper prefix (blocks of 64 + one valid tx); a block that panics is bisected so that the remaining strings are still checked. " +
-			"evaluations = (tx, placement) pairs judged; distinct_nontrivial = distinct (input class, per-placement verdict pattern with normalised error text) outcomes observed.",
+			"Every grid tx gives three cases, each with a sender of its own: (i)+(iii) alone in a block and again in the next block, (ii) twice in one block, (iv) between a valid contract call and a valid KV put of another sender. " +
+			"Raw block txs: the empty string alone, the other 65792 byte strings of length <= 2 in blocks of 1024 followed by one valid tx, and for three valid encoded txs (transfer, KV put, contract call with log) every single-byte replacement by {00,01,7f,80,ff} and every proper prefix in blocks of 64 followed by one valid tx; a block that panics is bisected so that the remaining strings are still judged. " +
+			"Cases are executed in chains of ~64 on one application instance (fresh copy of the base state per chain; cases expected to panic run alone; after a panic the rest of the chain is re-run on a new instance); the oracle is evaluated on the whole block sequence, its counterfactual (the sequence without every tx reported invalid) runs on another fresh copy; a finding is re-confirmed with its case alone on a fresh base state. " +
+			"evaluations = (tx, placement) pairs judged (raw: one per string); distinct_nontrivial = distinct (input class, placement, per-block verdict pattern with normalised error text) outcomes observed.",
 	}, []string{
 		"funded accounts are a harness state: on the real chain no balance ever exists (genesis allocates only the admin contract, nothing mints); value/gas-price dimensions are therefore explored from a state the real chain cannot reach, all other dimensions from one it can",
 		"the AdminOP precompile's callback (installed by chain/core.NewNode in a real node) is replaced by a stateless stub that accepts payloads ending in \"ok\"; validator-set effects of admin operations are outside the application and not observed",
-		"counterfactual comparison: AppHash equality stands for the whole account trie (collision resistance of keccak256); non-trie state is compared through Query (KV store, receipts) and ReceiptsHash; receipts are compared without positional metadata (block hash, tx index), and ReceiptsHash is not compared for a block in which a log-bearing valid tx follows a removed tx",
+		"counterfactual comparison: AppHash equality stands for the whole account trie (collision resistance of keccak256); non-trie state is compared through Query (KV store, receipts) and ReceiptsHash; receipts are compared without positional metadata (block hash, tx index); the counterfactual keeps the original block hashes when a log-bearing tx is involved, and ReceiptsHash is not compared for a block in which a log-bearing valid tx follows a removed tx (counted in receipts_hash_positional_skips)",
 		"decoding and signature recovery run on goroutines the application spawns; they are pre-screened on the driver's goroutine with the same functions (rlp.DecodeBytes, types.Sender) so that a panic there is observed instead of killing the driver",
-		"the status-word race in verifycpuparallel.go tryValidate (DESIGN §7) needs a controlled scheduler and is not explored here (C05 SCHED part)",
+		"schedule-dependent behaviour of exeWithCPUParallelVeirfy (status word published before tx.err / before the original bytes are stored) is observed only when the Go scheduler happens to produce it; exploring its interleavings is the SCHED part of C05",
 	})
-}
-
-// flush reports the collected findings in a deterministic order (smallest case first per signature).
-func (d *driver) flush(run *core.Run) {
-	d.mu.Lock()
-	defer d.mu.Unlock()
-	sort.SliceStable(d.hits, func(i, j int) bool {
-		a, b := d.hits[i], d.hits[j]
-		if len(a.kase.Raw) != len(b.kase.Raw) {
-			return len(a.kase.Raw) < len(b.kase.Raw)
-		}
-		if a.order != b.order {
-			return a.order < b.order
-		}
-		return placementRank(a.kase.Placement) < placementRank(b.kase.Placement)
-	})
-	for _, h := range d.hits {
-		run.Report(h.sig, h.kase, h.detail)
-	}
-	d.hits = nil
-}
-
-func placementRank(p string) int {
-	switch p {
-	case "alone":
-		return 0
-	case "consecutive":
-		return 1
-	case "twice":
-		return 2
-	case "between":
-		return 3
-	}
-	return 4
 }
